@@ -974,7 +974,7 @@ pub fn run() {
     ctx.set("distinct_nontrivial", all.halted.len());
     ctx.set("rule", "every generated run is clocked edge by edge with the REF-SUP monitor checking the state flip of every edge; distinct_nontrivial = distinct halted machine states reached (full-state digest); each chosen halted state is the root of a depth-3 BFS over 10 further stimuli");
     ctx.set("exhaustive", true);
-    ctx.set("bounds", format!("{} runs: LDSP to all 256 values x 5 walks x 5 sizes; recursion/pop loops x 7 start SPs x 5 sizes; MOV PC / JR to all 256 targets x {} limits; all 256 first bytes and second bytes after 4 prefixes; 23^2 two-instruction sequences x 3 register sets x 5 sizes x 5 limits{}; absorption BFS depth 3 from {} halted states chosen class-complete from {} classes ({} distinct halted states kept)", n_progs, 256, if quick { "" } else { " + 23^3 three-instruction sequences x 3 register sets x 5 sizes x 2 limits" }, chosen.len(), n_classes, all.halted.len()));
+    ctx.set("bounds", format!("{} runs: LDSP to all 256 values x 5 walks x 5 sizes; recursion/pop loops x 7 start SPs x 5 sizes; MOV PC / JR to all 256 targets x {} limits; all 256 first bytes and second bytes after 4 prefixes; 23^2 two-instruction sequences x 3 register sets x 5 sizes x 5 limits{}; limits installed by load: 15 programs and all their ordered pairs as second loads (NOSET, empty images); the continue key (once, twice), the interrupt key and an input change before every edge of about 600 halting programs; 5 looping programs for 100 000 monitored edges; absorption BFS depth 3 from {} halted states chosen class-complete from {} classes ({} distinct halted states kept)", n_progs, 256, if quick { "" } else { " + 23^3 three-instruction sequences x 3 register sets x 5 sizes x 2 limits" }, chosen.len(), n_classes, all.halted.len()));
     ctx.set("monitored_edges", all.st.edges);
     ctx.set("error_stops_by_rule", all.st.flips_error_rule);
     ctx.set("error_stops_by_opcode_00", all.st.flips_error_00);
